@@ -311,13 +311,21 @@ _c("C20",
    "of pre-emptions): if no cell written by one thread is accessed by another, every thread observes under EVERY interleaving what "
    "it observes alone (C20_private_safe, induction over the shuffle); the same when all writes to a cell store one constant "
    "written before it is read (C20_idempotent_write_safe); a write .. re-read pattern with a foreign write possible in between "
-   "has a constructed schedule whose observation occurs in no sequential order (C20_witness, C20_find_race_sound). (2) Shared "
+   "has a constructed schedule whose observation occurs in no sequential order (C20_witness, C20_find_race_sound); a save/write/use/"
+   "restore toggle of a shared name is harmless under nested overlap and not under FIFO overlap, two pre-emptions "
+   "(C20_toggle_fifo_witness, C20_toggle_lifo_harmless; helpers handed a shared Field object are inlined by the recogniser, save/"
+   "restore is a verdict of its own, and the whole two-pre-emption FIFO family is run for every multi-field wrapper kind, also with "
+   "collection options). (2) Shared "
    "get-or-compute caches (Global/Cache.v: one slot, any number of threads each running a protocol of lookups/stores/clears, any "
    "schedule): if every store of every protocol stores the completely computed value, every thread that returns, returns the value "
    "it returns alone (C20_cache_final_safe, C20_cache_final_alone; invariant over all schedules); a protocol whose first store puts "
    "anything else into the slot (a placeholder, a partial value) has a constructed schedule under which a second thread returns that "
    "value (C20_cache_placeholder_witness); the decidable classification is sound both ways (C20_cache_classified_safe/_racy); a "
-   "thread scheduled often enough HAS returned the computed value (C20_cache_final_complete); the slots of different keys are "
+   "thread scheduled often enough HAS returned the computed value (C20_cache_final_complete); a lookup written as a membership "
+   "test followed by a subscript read (two steps; the generated protocols distinguish `in` / `[]` / `.get`) never raises and returns "
+   "the computed value as long as NO protocol has a removal site (C20_cache_insert_only_safe), whereas next to any removal (clear, pop, "
+   "del - by a thread working on any key) a constructed schedule makes the reader raise KeyError between its test and its read "
+   "(C20_cache_removal_witness; replayed on the implementation with a burst of distinct keys that fills a bounded cache); the slots of different keys are "
    "independent, so all of this holds for the whole dictionary (C20_cache_keys_independent, C20_cache_keyed_final_safe). (3) Several "
    "fields / nested classes (Global/Compose.v, ClassModel.v): safety composes over disjoint cells and is invariant under renaming of "
    "cells (C20_compose_safe, C20_shift_invariant), hence a class all of whose fields' generated access lists are classified safe is "
